@@ -271,6 +271,7 @@ var respExtVariants = []string{
 	"permessage-deflate\nmeow",                    // a second extension on a second line
 	"permessage-deflate; server_max_window_bits=\"", // a lone quote as value
 	"permessage-deflate; server_max_window_bits=\"\"",
+	"permessage-deflate; server_max_window_bits=10; server_max_window_bits=12", // duplicate, both with values
 	"permessage-deflate; server_max_window_bits=012", // numerically in range, not the decimal without leading zeros the RFC asks for
 	"permessage-deflate; server_max_window_bits=+12",
 	"permessage-deflate; server_max_window_bits",
